@@ -227,6 +227,7 @@ func protoExec(op string, res *Result) string {
 		tr.lg.Lock()
 		res.ModelOp = op + " " + strings.Join(tr.ev, " ")
 		tr.lg.Unlock()
+		res.Abort = true
 		return "hang"
 	}
 	tr.lg.Lock()
